@@ -168,6 +168,7 @@ Definition spec_merge : Prop := forall e l R, hwt E true e = true -> hwt E true 
 
 (* the parser: NULL and everything returned, or a complete message owning exactly what is still live *)
 Definition spec_unpack (unp : nat -> list Z -> A (option hmsg)) : Prop := forall d data R,
+  Forall (fun b => 0 <= b < 256) data -> zlen data < 2147483648 ->
   hoare (fun L => Permutation L R) (unp d data)
         (fun o L' => match o with
                      | None => Permutation L' R
